@@ -8,6 +8,23 @@ O: independent primality knowledge in plain Python: a sieve below 2^22, explicit
    vlib.gen.is_prime (deterministic Miller-Rabin, valid below 3.3e24) otherwise, and a 100-base
    Miller-Rabin as last resort for untagged replays of larger inputs.
 """
+# SIZE AUDIT (quick tier)
+# sizes the code supports: isprime64(u64): three tiers switched at p >> 20 and p >> 40, table below 199; pseudoprime(Uint = 1024 bits):
+# <= 64 bits delegates to isprime64, above that ZmodN (k = ceil(bits/64) words, k = 2..8, assert bits <= 512 -> panic above).
+#   op            max size quick / thorough / supported            boundary classes reached deterministically by quick
+#   isprime64     64 bits / 64 bits / 64 bits (u64)                every odd p in windows of +-1500 around 2^20, 2^32, 2^40, 2^63 and the
+#                                                                  3000 below 2^64 (so the largest prime below and the smallest above each:
+#                                                                  2^32-5, 2^32+15, 2^63-25, 2^63+29, 2^64-59), +-200 around psi_2 and psi_5
+#                                                                  (the literature bounds behind the two thresholds), every published psi_k
+#   pseudoprime   512 bits judged, 513/600/1024 bits refused       the same windows (+-200) below 2^64; 2^64+1, 2^64+13 (smallest prime
+#                 (same sizes in thorough, 6x the count) /         above 2^64); 2 certified primes at EACH of 65,66,67,127,128,129,191,192,
+#                 512 bits (ZmodN::new asserts), Uint = 1024       193,255,256,257,320,383,384,385,447,448,449,499,500,501,511,512 bits
+#                                                                  (every word count 2..8, both sides of every word boundary), products,
+#                                                                  evens at 65..1023 bits, oversize odd 513, 600, 1024 bits (panic, K)
+# gap found: every multiword modulus had random words. Not reached: moduli whose words are all ones / all zeros (the largest prime
+# below and the smallest prime above 2^(64k), k = 2..8, 2^(64k)-1, 2^(64k)+1, the Mersenne / curve primes), where the carry chains and the
+# final conditional subtraction of the Montgomery product run at their extremes (at 512 bits the pre-subtraction value overflows
+# 8 words). Added: boundary_cases (about 70 requests, both tiers, first in the stream). Nothing else was missing.
 import math
 from vlib.pipeline import Case
 from vlib import gen
@@ -28,7 +45,9 @@ HYPOTHESES = [
     "Hψ5 (Jaeschke 1993): no odd composite n < 2152302898747 is a strong probable prime to all of the bases 2,3,5,7,11",
     "Hψ12 (Sorenson-Webster 2015, psi_12 > 2^64): no odd composite n < 2^64 is a strong probable prime to all twelve prime bases up to 37",
 ]
-RULE = ("isprime64: every odd p and every p < 200 below 2^16 (quick) / 2^22 (thorough), sampled evens >= 200 (an even that "
+RULE = ("boundary family first, in both tiers: the largest prime below / smallest prime above 2^(64k) (k = 1..8), 2^(64k) -+ 1, Mersenne and "
+        "curve primes, products next to the ends of each word count (moduli with all-ones / all-zero words); then: "
+        "isprime64: every odd p and every p < 200 below 2^16 (quick) / 2^22 (thorough), sampled evens >= 200 (an even that "
         "hangs costs a full timeout, so they are sampled), dense windows around 199, 2^20, 2^32, 2^40, 2^63, 2^64, all published psi_k, "
         "families p(r(p-1)+1), Carmichael (6k+1)(12k+1)(18k+1), random primes/semiprimes/squares of every bit size; "
         "pseudoprime: the same 64-bit corpora plus 65..512-bit certified primes (Pocklington chains, Proth primes with low word 1), "
@@ -232,9 +251,66 @@ def carmichael_chernick(kmax):
             yield a * b * c
 
 
+# ---------------------------------------------------------------- boundary family (size audit)
+
+# (c, d): 2^k - c is the largest prime below 2^k, 2^k + d the smallest prime above (re-checked by mr_big when the cases are built)
+NEAR_POW2 = {64: (59, 13), 128: (159, 51), 192: (237, 133), 256: (189, 297), 320: (197, 27), 384: (317, 231), 448: (203, 211),
+             512: (569, 75)}
+# primes with published proofs whose words are all ones / all zeros: Mersenne primes and the field primes of the standard curves
+PUBLISHED_PRIMES = [
+    2**61 - 1, 2**89 - 1, 2**107 - 1, 2**127 - 1, 2**255 - 19, 2**448 - 2**224 - 1, 2**192 - 2**64 - 1, 2**224 - 2**96 + 1,
+    2**256 - 2**224 + 2**192 + 2**96 - 1, 2**384 - 2**128 - 2**96 + 2**32 - 1, 2**256 - 2**32 - 977,
+]
+
+
+def _fork(rng, label):
+    """own stream for the boundary family: depends on the run's seed, leaves the stream of the older families untouched"""
+    import random
+    return random.Random(f"{label}:{rng.getstate()[1][:4]}")
+
+
+def boundary_cases(rng, tier):
+    """moduli at the extreme ends of every word count (all-ones / all-zero words): the largest prime below and the smallest prime above
+    2^(64k) for k = 1..8, the published Mersenne / curve primes, 2^(64k) -+ 1 and products of the primes next to 2^(32k), 2^(64k).
+    Primes carry the tag edge (truth: deterministic MR below 3.3e24, 100 bases above; re-checked here) or P:published; every composite
+    is shown composite here by a Miller-Rabin witness (a proof) and tagged C:witness. Deterministic: rng is not used."""
+    def emit(n, tag):
+        if n < W:
+            yield from c64(n, tag=tag)
+        elif n.bit_length() <= 512:
+            yield from cbig(n, tag=tag)
+        else:                                                            # assert of ZmodN::new: panic in both profiles (K only)
+            yield Case(f"pseudoprime {n}", o=False, tag="oversize")
+
+    def composite(n):
+        assert not mr_big(n), n
+        yield from emit(n, "C:witness")
+
+    for k, (c, d) in NEAR_POW2.items():
+        lo, hi = (1 << k) - c, (1 << k) + d
+        assert mr_big(lo) and mr_big(hi)
+        assert not any(mr_big(x) for x in range(lo + 2, hi, 2))
+        yield from emit(lo, "edge")
+        yield from emit(hi, "edge")
+        yield from composite((1 << k) - 1)                               # every word all ones
+        yield from composite((1 << k) + 1)                               # 1, zeros, 1 (k = 512: refused)
+        yield from composite(lo - 2 if not mr_big(lo - 2) else lo - 4)   # odd neighbours of the extreme primes
+        yield from composite(hi + 2 if not mr_big(hi + 2) else hi + 4)
+    for p in PUBLISHED_PRIMES:
+        assert mr_big(p)
+        yield from emit(p, "P:published")
+        yield from composite(p + 2 if not mr_big(p + 2) else p + 4)
+    # products whose value sits next to the top / the bottom of a word count
+    for k in (64, 128, 256, 512):
+        a, b = (1 << (k // 2)) - {32: 5, 64: 59, 128: 159, 256: 189}[k // 2], (1 << (k // 2)) + {32: 15, 64: 13, 128: 51, 256: 297}[k // 2]
+        for n in (a * a, a * b, b * b):                                  # k bits all-ones top / k bits / k+1 bits (k = 512: refused)
+            yield from composite(n)
+
+
 def cases(tier, rng, extended=False):
     quick = tier == "quick"
     scale = (1 if quick else 12) * (10 if extended else 1)
+    yield from boundary_cases(_fork(rng, "C06-boundary"), tier)
     # ---- isprime64: exhaustive low range (odd p and everything below 200), sampled evens
     top = (1 << 16) if quick else (1 << 22)
     for p in range(0, 200):
